@@ -15,9 +15,9 @@ RULE = ("kinds: sequence (random operation sequence over {integrate(), integrate
         "non-trivial = sequence contains a reset followed by an integration; distinct by operation-shape signature")
 ASSUMPTIONS = ["persistent settings across reset(): method, rtol, atol, tf, kick mask, constants; dt returns to the constructor's dt with the sign of (tf - t0)"]
 FLOORS = {"quick": {"sequences": 100, "resets_checked": 100, "twin_comparisons": 100, "reset_after_event": 15, "reset_after_fault": 15, "reset_after_method_change": 15,
-                    "split_pairs": 30, "noop_calls": 30, "call_start_step_replay_steps": 300, "call_start_slope_checks": 100, "faults_inside_a_retry": 8, "cross_process_comparisons": 10, "near_target_noop_calls": 80},
+                    "split_pairs": 30, "noop_calls": 30, "call_start_step_replay_steps": 300, "call_start_slope_checks": 100, "faults_inside_a_retry": 8, "cross_process_comparisons": 10, "near_target_noop_calls": 80, "settings_order_pairs": 25},
           "thorough": {"sequences": 1000, "resets_checked": 1000, "twin_comparisons": 1000, "reset_after_event": 150, "reset_after_fault": 150,
-                       "reset_after_method_change": 150, "split_pairs": 300, "noop_calls": 300, "call_start_step_replay_steps": 3000, "call_start_slope_checks": 1000, "faults_inside_a_retry": 40, "cross_process_comparisons": 70, "near_target_noop_calls": 800}}
+                       "reset_after_method_change": 150, "split_pairs": 300, "noop_calls": 300, "call_start_step_replay_steps": 3000, "call_start_slope_checks": 1000, "faults_inside_a_retry": 40, "cross_process_comparisons": 70, "near_target_noop_calls": 800, "settings_order_pairs": 250}}
 CASE_TIMEOUT = 900
 METHODS = ["RK45CKSolver", "DOPRI45", "RK4Solver", "EulerSolver", "HeunEulerSolver", "RK8713MSolver", "ABAs5o6HSolver", "SymplecticEulerSolver",
            "BackwardEuler", "RadauIIA5", "GaussLegendre4", "MidpointSolver", "LobattoIIIC4", "R2:RK4Solver", "R3:MidpointSolver", "R3:HeunEulerSolver", "R4:EulerSolver"]
@@ -86,6 +86,14 @@ def gen_cases(tier, seed):
         for d in (1, -1):
             cases.append(dict(kind="sequence", method=m0, direction=d, dense=bool(d > 0), pseed=int(rng.integers(1 << 30)), cost=25, settings=dict(rtol=1e-3, atol=1e-5),
                               ops=[["integrate", 0.5], ["reset"], ["integrate", 0.5], ["integrate", None]]))
+    # the order in which settings reach the system does not matter: tolerances / method / kick mask given at construction, or assigned later in
+    # any order before the first step, give bit-identical runs
+    so_names = [n for n in names if ":" not in n or n.startswith("R2") or n.startswith("R3:Mid") or n.startswith("R3:Heun") or n.startswith("R4")]
+    for i in range((len(so_names) + 14) if tier == "quick" else 300):
+        m0 = so_names[i % len(so_names)]       # every method at least once with the tolerances assigned after the method
+        rt = float(10 ** rng.uniform(-7, -3))
+        cases.append(dict(kind="settings_order", method=m0, direction=int(rng.choice([-1, 1])), dense=bool(rng.random() < 0.3), rtol=rt, atol=rt * float(10 ** rng.uniform(-3, 0)),
+                          order=(["method", "tol"] if i < len(so_names) else [str(x) for x in rng.permutation(["tol", "method"])]), loose_first=float(10 ** rng.uniform(0.5, 3)), pseed=int(rng.integers(1 << 30)), cost=6))
     # the same sequence in THIS interpreter and in a fresh one started with another hash seed: bit-identical logs (no dependence on
     # interpreter state, import order, dict/set iteration order or class-level caches filled by earlier work of this process)
     seqs = [c for c in cases if c["kind"] == "sequence"]
@@ -321,9 +329,46 @@ def _crossproc(spec):
     return rec.out()
 
 
+def _settings_order(spec):
+    import warnings
+    d = spec["direction"]
+    prob = Manufactured(2, spec["pseed"], direction=d)
+    t0 = 0.2
+    tf = t0 + d * 2.5
+    rec = util.Rec(sig="settings|%s|%d|%s|%d" % (spec["method"], d, "".join(o[0] for o in spec["order"]), spec["pseed"] % 1009))
+    feats = {"method": spec["method"], "direction": d, "dense": spec["dense"], "kind": "settings_order", "order": "".join(o[0] for o in spec["order"])}
+    # A: final settings from the start
+    A = Runner(spec, prob, t0, tf, settings=dict(rtol=spec["rtol"], atol=spec["atol"]))
+    # B: constructed with looser tolerances and the default method; the final settings are assigned afterwards in the given order
+    spec_b = dict(spec, method="RK45CKSolver")
+    B = Runner(spec_b, prob, t0, tf, settings=dict(rtol=spec["rtol"] * spec["loose_first"], atol=spec["atol"] * spec["loose_first"]))
+    with warnings.catch_warnings():
+        warnings.simplefilter("ignore")
+        for what in spec["order"]:
+            if what == "tol":
+                B.system.rtol = spec["rtol"]
+                B.system.atol = spec["atol"]
+            else:
+                B.system.method = util.resolve_cls(spec["method"], B.M)
+    for R in (A, B):
+        R.apply(["integrate", 0.6])
+        R.apply(["integrate", None])
+    rec.bump("settings_order_pairs")
+    rec.nontrivial = A.log[-1]["rows"] > 3
+    la = [(o["digest"], o["rows"], o["raised"]) for o in A.log]
+    lb = [(o["digest"], o["rows"], o["raised"]) for o in B.log]
+    if la != lb:
+        rec.violate("settings_order", "same_settings_reached_in_a_different_order_give_a_different_run", feats, from_construction=[x[1:] for x in la], assigned_later=[x[1:] for x in lb],
+                    rtol=spec["rtol"], atol=spec["atol"])
+    rec.sample = {"spec": {k: spec[k] for k in ("method", "direction", "rtol", "atol", "order")}, "rows": A.log[-1]["rows"]}
+    return rec.out()
+
+
 def run_case(spec):
     if spec["kind"] == "split":
         return _split(spec)
+    if spec["kind"] == "settings_order":
+        return _settings_order(spec)
     if spec["kind"] == "crossproc":
         return _crossproc(spec)
     d = spec["direction"]
